@@ -1,1 +1,4 @@
+pub mod http1;
+pub mod http2;
+pub mod tcp;
 pub mod tls;
